@@ -171,6 +171,16 @@ fn main() {
                 "cov" => cov::drive(seed, n),
                 "curve-float" | "curve-big" | "stroke-float" => drivers::curve_float(fam, seed, n),
                 "dashops" => drivers::dashops(seed, n),
+                "stroke-nonpos" => {
+                    // the stroke / dash scenarios with a width that must paint nothing
+                    let ws = [json!(0), json!("-0"), json!(-1), json!(-7), json!("NaN"), json!("-Inf"), json!([-1, 3])];
+                    let mut v = drivers::stroke(if seed % 2 == 0 { "stroke" } else { "dash" }, seed, n);
+                    for (i, sc) in v.iter_mut().enumerate() {
+                        sc["style"]["width"] = ws[i % ws.len()].clone();
+                        sc["id"] = json!(format!("drv-stroke-nonpos-{}-{}", seed, i));
+                    }
+                    v
+                }
                 "curveedge-shift" => curveedge::drive(seed, n, 400, 100),
                 "curveedge" => curveedge::drive(seed, n, 48, 20),
                 "curve-sweep" => drivers::curve_sweep(seed, n),
